@@ -610,7 +610,11 @@ C05_YearlyCount == (IsOut("out.end") /\ Ev.kind = "yearly" /\ Has(Gen, "annual")
 \* crop file: one record per harvested crop of the rotation, in rotation order, with the crop code of its entry
 C05_CropRecords == (IsOut("out.crop") /\ Has(Gen, "rotCrops")) => outs.ccount <= Len(Gen.rotCrops) /\ Ev.crop = Gen.rotCrops[outs.ccount]
 C05_CropCount == (IsOut("out.end") /\ Ev.kind = "crop") => outs.ccount = Len(hist.harv)
-C05_All == C05_Begin /\ C05_Fields /\ C05_ValidDates /\ C05_DailyFirst /\ C05_DailyConsecutive /\ C05_DailyEnd /\ C05_NoMissingFile /\ C05_YearlyDates /\ C05_YearlyCount /\ C05_CropRecords /\ C05_CropCount
+\* ... counted without the code's own word for "a crop was harvested": with harvest dates fixed by the rotation file every
+\* entry after the initial one whose harvest date lies inside the executed period is a harvested crop of the rotation
+C05_CropCountRot == (IsOut("out.end") /\ Ev.kind = "crop" /\ ix.cfg > 0 /\ ix.gen > 0 /\ Has(Gen, "rot") /\ ~Cfg.autoHar) =>
+   outs.ccount = Len(SelectSeq(Tail(Gen.rot), LAMBDA e : e[2] <= Cfg.ende /\ e[2] > Cfg.begin))
+C05_All == C05_Begin /\ C05_Fields /\ C05_ValidDates /\ C05_DailyFirst /\ C05_DailyConsecutive /\ C05_DailyEnd /\ C05_NoMissingFile /\ C05_YearlyDates /\ C05_YearlyCount /\ C05_CropRecords /\ C05_CropCount /\ C05_CropCountRot
 
 
 \* =============================================================================================
